@@ -145,6 +145,50 @@ func runC07(c *fw.C) {
 		}
 	}
 	c.Obs("sync_replicas_loaded", 1)
+	// a transient read fault while the diff runs: DiffLinks may fail, but if it reports
+	// success what it reported must still be complete and exact
+	if p.OE == e && c.R.Chance(1, 2) {
+		k := c.R.Range(1, 8)
+		n := 0
+		e.Store.FailLoad = func(int, string) error {
+			n++
+			if n == k {
+				return errInjectedLoad
+			}
+			return nil
+		}
+		cold := *e
+		cold.Cache = nil
+		ot, err1 := cold.Load(p.Old.Root)
+		nt, err2 := cold.Load(p.New.Root)
+		if err1 == nil && err2 == nil {
+			addedF := map[string]int{}
+			removedF := map[string]int{}
+			err := nt.DiffLinks(e.Ctx, ot, func(rem bool, link interface{}) (bool, error) {
+				if s, ok := link.(string); ok {
+					if rem {
+						removedF[s]++
+					} else {
+						addedF[s]++
+					}
+				}
+				return true, nil
+			})
+			e.Store.FailLoad = nil
+			c.Obs("diffs_with_transient_load_fault", 1)
+			if err == nil && n >= k {
+				c.Obs("diffs_succeeding_despite_load_fault", 1)
+				saved := ctx
+				ctx = map[string]string{"relation": p.Relation, "old": p.Old.Kind, "new": p.New.Kind, "fault": "transient_load"}
+				ok := check("added", addedF, rn, ro) && check("removed", removedF, ro, rn)
+				ctx = saved
+				if !ok {
+					return
+				}
+			}
+		}
+		e.Store.FailLoad = nil
+	}
 	// the same diff as a replica would run it: the OLD version is read from the
 	// replica's own store (which holds nothing but the old version), the new one
 	// from the source store
